@@ -2,7 +2,8 @@ import Driver.Sexp
 import Pcore.Model.Dispatch
 import Pcore.Model.DispatchCtors
 import Pcore.Model.CtorNew
-/-! Driver ops for C16:  `call <lt> <ds> <args> <blk>` and `newm <recv> <args>` (syntax in harness/c16/c16.go).  The general
+import Pcore.Model.CtorCoerce
+/-! Driver ops for C16:  `call <lt> <ds> <args> <blk>`, `newm <recv> <args>` and `coerce <ty> <v>` (syntax in harness/c16/c16.go).  The general
     `new` op is implementation-only. -/
 namespace C16
 open Sx Pcore.Dispatch Pcore.Dispatch.Alpha
@@ -43,6 +44,8 @@ partial def tyOf (env : List (String × Sexp)) (fuel : Nat) : Sexp → Option Ty
   | .list [.atom "flt", lo, hi] => do
       some (.float (← fboundOf? (-F64.maxFiniteKey) lo) (← fboundOf? F64.maxFiniteKey hi))
   | .list [.atom "opt", e] => (tyOf env fuel e).map .opt
+  | .list [.atom "nu", e] => (tyOf env fuel e).map .notUndef
+  | .list [.atom "alias", e] => (tyOf env fuel e).map .alias
   | .list (.atom "tuple" :: ts) => (ts.mapM (tyOf env fuel)).map .tuple
   | .list [.atom "hash", k, v, lo, hi] => do
       some (.hash (← tyOf env fuel k) (← tyOf env fuel v) (← lo.nat?) (← boundNat? hi))
@@ -123,7 +126,7 @@ partial def valStr : Val → String
 
 def recvTyOf : Sexp → Option RecvTy
   | .list [.atom "init"] => some .initDefault
-  | .list [.atom "init", t] => (tyOf [] 0 t).map .init
+  | .list (.atom "init" :: t :: ia) => do some (.init (← tyOf [] 0 t) (← ia.mapM valOf))
   | t => (tyOf [] 0 t).map .plain
 
 def outcomeStr : Outcome → String
@@ -154,6 +157,15 @@ def exec : List Sexp → String
       | some (.value v) => "value " ++ valStr v
       | some (.reported c) => "reported " ++ c
       | some .fault => "fault"
+    | _, _ => "bad-op"
+  | [.atom "coerce", t, v] =>
+    match tyOf [] 0 t, valOf v with
+    | some ty, some x =>
+      match coerceTo (fun cs => Pcore.Syntax.parseFloat cs) ty x with
+      | .value r => "value " ++ valStr r
+      | .reported "UNMODELLED" => "bad-op"    -- the coercion ended in a constructor that is not modelled
+      | .reported c => "reported " ++ c
+      | .fault => "fault"
     | _, _ => "bad-op"
   | [.atom "call", .list (.atom "lt" :: lt), .list (.atom "ds" :: ds), .list (.atom "args" :: args), blk] =>
     match envOf lt, blkOf blk, args.mapM valOf with
